@@ -99,6 +99,39 @@ theorem counters_insert (nb : Option Nat) (s : Slots) (p : Nat) (op : Op) (hp : 
       simp [bondIs, this, hb] at h ⊢
       omega
 
+theorem countBond_pos (s : Slots) (p : Nat) (op : Op) (hp : slotAt s p = some op) :
+    1 ≤ countBond s op.bond := by
+  have h := countBond_set s p none op.bond (slotAt_lt hp)
+  rw [hp] at h
+  simp [bondIs] at h
+  omega
+
+theorem counters_replace (nb : Option Nat) (s : Slots) (p : Nat) (old o : Op) (hp : slotAt s p = some old) :
+    ((nb.map (fun k => (List.range k).map (countBond s))).map (fun l => l.modify old.bond (· - 1))).map
+        (fun l => l.modify o.bond (· + 1))
+      = nb.map (fun k => (List.range k).map (countBond (s.set p (some o)))) := by
+  cases nb with
+  | none => rfl
+  | some k =>
+    simp only [Option.map_some, modify_range_map]
+    congr 1
+    apply List.map_congr_left
+    intro b _
+    have h := countBond_set s p (some o) b (slotAt_lt hp)
+    have hpos := countBond_pos s p old hp
+    rw [hp] at h
+    by_cases hb : b = old.bond <;> by_cases hb2 : b = o.bond
+    · subst hb; simp [bondIs, ← hb2] at h ⊢; omega
+    · subst hb
+      have : (o.bond == old.bond) = false := by simpa using fun e => hb2 e.symm
+      simp [bondIs, this, hb2] at h ⊢; omega
+    · subst hb2
+      have : (old.bond == o.bond) = false := by simpa using fun e => hb e.symm
+      simp [bondIs, this, hb] at h ⊢; omega
+    · have h1 : (old.bond == b) = false := by simpa using fun e => hb e.symm
+      have h2 : (o.bond == b) = false := by simpa using fun e => hb2 e.symm
+      simp [bondIs, h1, h2, hb, hb2] at h ⊢; omega
+
 namespace FastOps
 
 /-- B-remove -/
@@ -243,6 +276,67 @@ theorem installG_canon (nb : Option Nat) (s : Slots) (p : Nat) (op : Op)
   · simp [varEnds_installGlobalCore]
   · simp only [bc_installGlobalCore, bc_canonG]
     exact counters_insert nb s p op hp hpL
+
+
+/-- B-fast -/
+theorem fastInstall_canon (nb : Option Nat) (s : Slots) (p : Nat) (old o : Op)
+    (hp : slotAt s p = some old) :
+    fastInstall ((canonG nb s).setOp p none) p (canonNodeG s p old) o = canonG nb (s.set p (some o)) := by
+  have hpL := slotAt_lt hp
+  have hocc := occ_of_slotAt hp
+  have hP' := occ_set s p (some o) hpL
+  simp only [Option.isSome_some] at hP'
+  rw [upd_self_eq hocc] at hP'
+  unfold fastInstall
+  apply ext'
+  · simp
+  · intro q _
+    simp only [getNode_setOp, getNode_incrBond, getNode_decrBond, getNode_canonG, slotAt_set, length_setOp,
+      length_incrBond, length_decrBond, length_canonG]
+    by_cases hqp : p = q
+    · subst hqp
+      simp only [hpL, and_self, if_true, Option.map_some, canonNodeG, List.length_set, hP']
+    · simp only [hqp, false_and, if_false]
+      cases hsq : slotAt s q with
+      | none => rfl
+      | some oq => simp only [Option.map_some, canonNodeG, List.length_set, hP']
+  · have := countOps_set s p (some o) hpL
+    simp [hocc] at this
+    simp [this]
+  · simp [canonEnds, hP']
+  · simp
+  · simp only [bondCounters_setOp, bc_incrBond', bc_decrBond', bc_canonG, canonNodeG]
+    exact counters_replace nb s p old o hp
+
+/-- the global view of `change` on a canonical global view is the canonical global view of the
+updated slots (all four paths of `mutate_p`) -/
+theorem changeG_canon (nb : Option Nat) (s : Slots) (p : Nat) (new : Option Op) (a : Cursor)
+    (hpL : p < s.length) (ha : a.lastP = prevOcc (occ s) p) :
+    changeG (canonG nb s) p new a = canonG nb (s.set p new) := by
+  unfold changeG
+  rw [getNode_canonG]
+  cases hold : slotAt s p with
+  | none =>
+    rw [canonG_setOp_none nb s p hold]
+    cases new with
+    | none => simp [set_none_of_slotAt_none s p hold]
+    | some o => simpa using installG_canon nb s p o hold hpL a ha
+  | some old =>
+    cases new with
+    | none => simpa using uninstallG_canon nb s p old hold a ha
+    | some o =>
+      simp only [Option.map_some]
+      by_cases hv : (canonNodeG s p old).op.vars = o.vars
+      · simp only [hv, beq_self_eq_true, if_true]
+        exact fastInstall_canon nb s p old o hold
+      · have : ((canonNodeG s p old).op.vars == o.vars) = false := by simpa using hv
+        simp only [this, Bool.false_eq_true, if_false]
+        rw [uninstallG_canon nb s p old hold a ha]
+        have h0 : slotAt (s.set p none) p = none := by simp [slotAt_set, hpL]
+        have hl0 : p < (s.set p none).length := by simpa using hpL
+        have ha0 : a.lastP = prevOcc (occ (s.set p none)) p := by
+          rw [occ_set s p none hpL, prevOcc_upd_self]; exact ha
+        rw [installG_canon nb (s.set p none) p o h0 hl0 a ha0, List.set_set]
 
 end FastOps
 end Qmc
